@@ -9,17 +9,14 @@ COMMON_TRUSTED = [
 
 PROPS = {}
 
-PROPS["C19"] = dict(
-    modules=["CG.Props.C19"],
-    required_theorems=["C19_serialisation_80", "C19_serialisation_injective", "C19_ord_numeric", "C19_target_value",
-                       "C19_target_total", "C19_validate_eq_spec", "C19_validate_iff", "C19_validate_no_panic",
-                       "C19_median_is_sorted_middle"],
-    rule="c19.validate: every exponent 0..255 x boundary mantissas x hash at target-1/target/target+1/random; predecessor "
-         "lists of length 0..15 (+ some longer) with duplicates and a candidate below/at/above the median; c19.cmp: equal, "
-         "adjacent, one-byte-different and random 256-bit pairs; c19.hash: random headers with boundary u32 fields. "
-         "A case is non-trivial unless it ends in the exponent-range error; distinct by request line.",
-    nontrivial=lambda req, impl: impl != "err:BadArgument",
-    trusted_base=["sha2 crate (SHA-256) modelled as a parameter in theorems; compared with an independent Lean SHA-256 in the driver",
-                  "Rust slice::sort modelled as List.mergeSort (proved equal to insertion sort on naturals)"],
-    assumptions=["bits < 2^32, hash is 32 bytes (types guarantee it)", "mantissa sign bit clear (outside the claim otherwise)"],
-)
+import os, re, importlib.util
+_d = os.path.dirname(os.path.abspath(__file__))
+CLAIMS = {}
+for _f in sorted(os.listdir(_d)):
+    if re.fullmatch(r"C\d\d\.py", _f):
+        _spec = importlib.util.spec_from_file_location("prop_" + _f[:-3], os.path.join(_d, _f))
+        _m = importlib.util.module_from_spec(_spec)
+        _spec.loader.exec_module(_m)
+        PROPS[_f[:-3]] = _m.PROP
+        if getattr(_m, "CLAIM", None):
+            CLAIMS[_f[:-3]] = _m.CLAIM
